@@ -483,6 +483,23 @@ func (r *PipelineRunner) HandleStageChange(stage *scheduler.Stage) {
 		jt.Status = toStatus(stage.ReadStatus())
 	}
 
+	// A task can fail without the task runner having reported a task change before (e.g. its script cannot be rendered
+	// or its log file cannot be created, see TaskRunner.Run), so HandleTaskChange did not see the failure.
+	// Fail fast in this case as well - unless the failure is allowed.
+	if stage.ReadStatus() == scheduler.StatusError && !stage.AllowFailure && !jt.Errored && !jt.Canceled {
+		pipelineDef, found := r.defs.Pipelines[j.Pipeline]
+		if found && !pipelineDef.ContinueRunningTasksAfterFailure {
+			log.
+				WithField("component", "runner").
+				WithField("jobID", jobIDString).
+				WithField("pipeline", j.Pipeline).
+				WithField("failedTaskName", stage.Name).
+				Debug("Task failed before it was executed - cancelling all other tasks of the job")
+			// Use internal cancel since we already have a lock on the mutex
+			_ = r.cancelJobInternal(jobID)
+		}
+	}
+
 	r.requestPersist()
 }
 
